@@ -402,6 +402,7 @@ def kani_crate(crate, prop, tier, scratch, only=None):
         ex = json.load(f)
     errs = {e['harness_id']: e for e in ex.get('error_details', [])}
     seen = set()
+    unsupported_in = set()
     for r in ex.get('verification_results', {}).get('results', []):
         hid = r['harness_id']
         seen.add(hid)
@@ -431,6 +432,10 @@ def kani_crate(crate, prop, tier, scratch, only=None):
                 f['cls'] = 'P'
             else:
                 # untagged: a panic / overflow / bounds failure inside the real code (or an unwinding assertion)
+                if 'not currently supported' in desc or 'unsupported' in desc.lower():
+                    res['hard'].append(dict(kind='tool', msg='%s: construct not supported by Kani reached (%s @ %s)' % (meta['name'], desc[:120], f['location'])))
+                    unsupported_in.add(hid)
+                    continue
                 if 'unwinding assertion' in desc:
                     res['hard'].append(dict(kind='unwind', msg='%s: unwinding assertion failed (%s) — bound too small for this code' % (meta['name'], f['location'])))
                     continue
@@ -446,6 +451,8 @@ def kani_crate(crate, prop, tier, scratch, only=None):
     for h in selected:
         if h['full'] not in seen:
             res['hard'].append(dict(kind='tool', msg='harness %s did not report (timeout or crash)' % h['name']))
+    # a harness that reached an unsupported construct reports spurious pointer failures: undecided, not an alarm
+    res['failures'] = [f for f in res['failures'] if not (f['full'] in unsupported_in and f.get('props') is None)]
     if res['failures']:
         res['status'] = 'failed'
     elif res['hard']:
@@ -455,7 +462,7 @@ def kani_crate(crate, prop, tier, scratch, only=None):
     return res
 
 
-def kani_confirm(crate, failures, scratch, tier, max_harnesses=3):
+def kani_confirm(crate, failures, scratch, tier, max_harnesses=2, times=None):
     """Counterexample replay: re-run the failing harnesses with --concrete-playback=print, append the
     generated unit tests to the harness module of the scratch copy and execute them NATIVELY against
     the real crate code (`cargo kani playback`).  Returns {failure name: dict(test=..., native=...)}"""
@@ -463,17 +470,18 @@ def kani_confirm(crate, failures, scratch, tier, max_harnesses=3):
     by_h = {}
     for f in failures:
         by_h.setdefault(f['full'], []).append(f)
-    chosen = list(by_h)[:max_harnesses]
+    # cheapest harnesses first (playback re-runs CBMC with trace generation: several times the verification time)
+    chosen = sorted(by_h, key=lambda h: (times or {}).get(h, 0))[:max_harnesses]
     env = dict(os.environ)
     env['CARGO_NET_OFFLINE'] = 'true'
     env['CARGO_TARGET_DIR'] = os.path.join(CACHE, 'kani-target')
     base = ['cargo', 'kani', '-p', crate, '-Z', 'function-contracts', '-Z', 'stubbing', '-Z', 'unstable-options', '-Z', 'concrete-playback',
-            '--concrete-playback=print', '--exact', '--harness-timeout', '%ds' % registry.HARNESS_TIMEOUT[tier]]
+            '--concrete-playback=print', '--exact', '--harness-timeout', '%ds' % registry.PLAYBACK_TIMEOUT]
     out = {}
     # --concrete-playback is incompatible with --jobs: one process per harness, run side by side
     procs = [subprocess.Popen(base + ['--harness', h], cwd=ws, env=env, stdout=subprocess.PIPE, stderr=subprocess.DEVNULL, text=True, preexec_fn=_big_stack) for h in chosen]
     stdout_all = ''
-    deadline = time.time() + registry.KANI_TOTAL_TIMEOUT[tier]
+    deadline = time.time() + registry.PLAYBACK_TIMEOUT * max_harnesses + 120
     for pr in procs:
         try:
             o, _ = pr.communicate(timeout=max(1, deadline - time.time()))
@@ -554,6 +562,8 @@ def native_crate(crate, prop, tier, scratch):
     metas = {}
     for srcfile, nfile, modname in cfg['modules']:
         src = os.path.join(VERIF, 'native', crate, nfile)
+        if not os.path.exists(src):
+            src = os.path.join(VERIF, 'native', 'common', nfile)
         sel = [t for t in parse_native_file(src) if prop in t['props'] and not (t.get('tier') == 'thorough' and tier != 'thorough')]
         if not sel:
             continue
@@ -571,7 +581,8 @@ def native_crate(crate, prop, tier, scratch):
                 f.write('\n#[cfg(test)]\nmod %s {\n    #![allow(unused, dead_code)]\n    use super::*;\n    include!(concat!(env!("CARGO_MANIFEST_DIR"), "/verif_native/%s"));\n}\n' % (modname, nfile))
         for t in sel:
             t['srcfile'] = '%s/%s' % (crate, srcfile)
-            names.append(t['name'])
+            if t['name'] not in names:
+                names.append(t['name'])
             metas[t['name']] = t
     if not names:
         res['status'] = 'undecided'
@@ -600,11 +611,16 @@ def native_crate(crate, prop, tier, scratch):
             res['tests'].append(dict(name=m.group(1), props=m.group(2).split(','), bound=m.group(3), cases=int(m.group(4)), ok=True))
             seen.add(m.group(1))
             continue
+        m = re.match(r'VERIF-DIGEST (\S+) (\S+) (\S+)', ln)
+        if m:
+            res.setdefault('digests', []).append((m.group(1), m.group(2), m.group(3)))
+            continue
         m = re.match(r'VERIF-FAIL (\S+) props=(\S+) (.*)', ln)
         if m:
             res['tests'].append(dict(name=m.group(1), props=m.group(2).split(','), ok=False, detail=m.group(3)))
             res['failures'].append(dict(name=m.group(1), props=m.group(2).split(','), cls='P', desc=m.group(3), concrete=dict(native_failing_input=m.group(3))))
     ran = re.findall(r'^test (\S+) \.\.\. (ok|FAILED)', out, re.M)
+    res['expected_tests'] = len(names)
     if len(ran) < len(names) and not res['failures']:
         tail = '\n'.join([l for l in out.splitlines() if 'error' in l][:15])
         res['hard'].append(dict(kind='build', msg='native tests did not run (%d of %d): %s %s' % (len(ran), len(names), tail, out[-800:])))
@@ -644,6 +660,7 @@ def main():
     ap.add_argument('--tier', default=os.environ.get('VERIF_TIER', 'quick'))
     ap.add_argument('--replay')
     ap.add_argument('--keep', action='store_true')
+    ap.add_argument('--no-replay', action='store_true', help='skip the concrete playback of counterexamples (debugging)')
     ap.add_argument('--only', help='comma separated harness names (debugging)')
     args = ap.parse_args()
     prop = args.prop
@@ -676,6 +693,20 @@ def main():
         r = native_crate(crate, prop, tier, scratch)
         log('[%s]   %s: %d tests, %d failing obligations, %d hard errors, %.1fs' % (prop, crate, len(r['tests']), len(r['failures']), len(r['hard']), r.get('wall_s', 0)))
         results.append(r)
+
+    # cross-copy agreement: all copies that print a digest for the same group must print the same value
+    groups = {}
+    for r in results:
+        for (grp, copy, val) in r.get('digests', []):
+            groups.setdefault(grp, {})[copy] = val
+    for grp, vals in groups.items():
+        ok = len(set(vals.values())) == 1
+        tgt = [r for r in results if r.get('digests')][-1]
+        tgt['tests'].append(dict(name='%s#copies_agree' % grp, props=[prop], bound='%d copies: %s' % (len(vals), ', '.join(sorted(vals))), cases=len(vals), ok=ok))
+        if not ok:
+            tgt['failures'].append(dict(name='%s#copies_agree' % grp, props=[prop], cls='P', desc='copies disagree on the enumerated space: %s' % json.dumps(vals), concrete=dict(digests=vals)))
+        if len(vals) < registry.DIGEST_COPIES.get(grp, 1):
+            tgt['hard'].append(dict(kind='vacuous', msg='%s: only %d of %d copies reported' % (grp, len(vals), registry.DIGEST_COPIES[grp])))
 
     known = load_known()
     violations = []
@@ -724,7 +755,12 @@ def main():
             kani_viol.setdefault(r['unit'].split(':', 1)[1], []).append(f)
     for crate, fl in kani_viol.items():
         log('[%s] replaying %d failing obligation(s) of %s on the real code (concrete playback) ...' % (prop, len(fl), crate))
-        confirmed.update(kani_confirm(crate, fl, scratch, tier))
+        times = {}
+        for r in results:
+            for h in r.get('harnesses', []):
+                times[h['full']] = h['time_s']
+        if not args.no_replay:
+            confirmed.update(kani_confirm(crate, fl, scratch, tier, times=times))
     for (r, f) in violations:
         rp = os.path.join(VERIF, 'replays', '%s-%s.txt' % (prop, hashlib.sha1(f['name'].encode()).hexdigest()[:10]))
         body = ['property: %s' % prop, 'failed obligation: %s' % f['name'], 'unit: %s (%s)' % (r['unit'], r.get('engine')), '']
@@ -756,7 +792,11 @@ def main():
         tail = '' if concrete else ' no-failing-input-found'
         lines_out.append('VIOLATION property=%s replay=%s obligation=%s%s' % (prop, rp, f['name'], tail))
         rc = 1
+    seen_k = set()
     for (f, k) in known_hits:
+        if f['name'] in seen_k:
+            continue
+        seen_k.add(f['name'])
         lines_out.append('KNOWN-FINDING: property=%s %s (%s)' % (prop, k['text'], f['name']))
     if rc == 0 and undecided:
         rc = 2
